@@ -11,10 +11,12 @@ from . import core, problems
 PROP_FILES = ["Properties/C05.v"]
 RULE = ("random problems (constraints + objectives, located specifications so that user objects are shared, user-defined "
         "specifications) solved with a fixed numpy seed in fresh subprocesses under different PYTHONHASHSEED values and after different "
-        "in-process histories (reverse order, solved twice, the same specification objects first used in another problem); "
+        "in-process histories (reverse order, solved twice, the same specification objects first used in another problem, the same "
+        "objects first used one by one in problems that fail); a quarter of the problems are of the shared-object family (a "
+        "self-localizing located constraint that passes + a windowed constraint needing a random local search); "
         "non-trivial = the solve consumed random numbers or changed the sequence; distinct by JSON text")
 HASHSEEDS = {"quick": ["0", "1", "7", "12345"], "thorough": ["0", "1", "2", "7", "99", "12345", "4294967295", "random"]}
-MODES = ["fresh", "reversed", "twice", "shared_objects"]
+MODES = ["fresh", "reversed", "twice", "shared_objects", "after_failure"]
 
 # audited places where a set (or anything whose order is hash-dependent) is iterated / indexed in the
 # anchored files, with the reason the result does not depend on the order
@@ -104,6 +106,30 @@ def scan_sites():
     return out
 
 
+def gen_shared_family(rng):
+    """a located, non-windowed GC constraint (initialized_on_problem and localized both return the
+    user's object) that passes from the start, next to a windowed one that fails in the middle and
+    needs a random local search"""
+    from .problems import kw
+    k = rng.choice([6, 7, 8])
+    flank, centre = rng.choice([("GCGA", "AT"), ("GCTA", "TA"), ("ATTA", "GC"), ("CGAT", "AT")])
+    m = rng.choice([10, 12, 13])
+    seq = flank * k + centre * m + flank * k
+    n = len(seq)
+    gc = sum(c in "GC" for c in seq) / n
+    lo = max(0.05, round(gc - 0.12, 2))
+    hi = min(0.95, round(gc + 0.12, 2))
+    cs = [("EnforceGCContent", kw(mini=0.3, maxi=0.8, window=rng.choice([16, 20]), location=None)),
+          ("EnforceGCContent", kw(mini=lo, maxi=hi, location=(0, n, 0)))]
+    if rng.random() < 0.5:
+        cs.reverse()
+    if rng.random() < 0.4:
+        cs.append(("AvoidPattern", kw(pattern=rng.choice(["GGTCTC", "CACGTG"]), location=(0, n, 0))))
+    cfg = dict(threshold=rng.choice([0, 50, 10000]), max_iters=rng.choice([60, 200]), mutations=rng.choice([1, 2]),
+               extensions=rng.choice([(0, 5), (0, 3, 9)]), stagnation=None)
+    return dict(seq=seq, constraints=tuple(cs), objectives=(), cfg=cfg, np_seed=rng.randint(0, 10**6))
+
+
 def run_workers(ps, tier):
     tmp = tempfile.mkdtemp(prefix="verif_c05_")
     pfile = os.path.join(tmp, "problems.json")
@@ -146,6 +172,8 @@ def run(chk):
     # problems
     N = 40 if chk.tier == "quick" else 400
     ps = []
+    while len(ps) < N // 4:
+        ps.append(gen_shared_family(chk.rng))
     while len(ps) < N:
         p = problems.gen_problem(chk.rng, with_objectives=chk.rng.random() < 0.6, allow_custom=True,
                                  custom_kinds=problems.SOUND_CUSTOM)
